@@ -14,6 +14,7 @@ Boundaries of the model (all explicit, none silent):
   (trusted primitive, contract `PowContract` in `Props/C05.lean`).
 -/
 import Strengths.Model.Units
+import Strengths.Gen.UnitsOps
 
 namespace Strengths
 
@@ -340,6 +341,15 @@ def CmpOp.swap : CmpOp → CmpOp
 def CmpOp.isOrdering : CmpOp → Bool
   | .eq => false | .ne => false | _ => true
 
+/-- does the last (`else`) branch of the ordering method `op` of `UnitValue` *raise* its `TypeError`?  Read from
+the regenerated source (`Gen.uvalCmp_*`): at the time of writing it `return`s the exception object (known finding
+`cmp-array-returns-exception-object`); the model follows whichever the tree under test does. -/
+def cmpElseRaises (op : CmpOp) : Bool :=
+  let tbl := match op with
+    | .gt => Gen.uvalCmp_gt | .ge => Gen.uvalCmp_ge | .lt => Gen.uvalCmp_lt | .le => Gen.uvalCmp_le
+    | _ => []
+  tbl.getLast? == some ("else", "raise TypeError")
+
 /-- `UnitValue.__eq__/__gt__/__ge__/__lt__/__le__(v)`, and `!=` as Python derives it (`not __eq__`;
 the class only defines a mis-named `__neq__`) -/
 def UVal.cmp (op : CmpOp) (self : UVal) : Operand → Res CmpRes
@@ -355,7 +365,7 @@ def UVal.cmp (op : CmpOp) (self : UVal) : Operand → Res CmpRes
     match op with
     | .eq => .ok (.bool false)
     | .ne => .ok (.bool true)
-    | _ => .ok .excObject
+    | _ => if cmpElseRaises op then .error .typeError else .ok .excObject
 
 /-- `a op b` with Python's rich-comparison dispatch.  `UnitArray` defines no comparison method:
 `==` falls back to object identity (two distinct objects: `False`), ordering against a non-`UnitValue`
